@@ -340,7 +340,7 @@ def stage_a(ctx, procs):
             ctx.violation('C13/spec/LvsTree/%s' % r.violated, 'TLC: %s violated by the walk machine (%s)' % (r.violated, name),
                           {'kind': 'spec', 'trace': r.errtrace})
     for a in c11.WALK_ACTS:
-        if res[0].ok and res[0].coverage.get(a, (0, 0))[0] == 0:
+        if res[0].ok and res[0].coverage.get(a, (0, 0))[1] == 0:
             raise tlc.MachineryError('vacuous: action %s of the walk machine never taken' % a)
     if not res[2].violated:
         raise tlc.MachineryError('witness: no parent-corrupted tree makes the machine loop (termination check vacuous)')
